@@ -24,7 +24,10 @@ RECURSIVE SubstVal(_, _, _, _)
 SubstVal(v, d, nested, top) ==
   IF IsPathArg(v) THEN
        IF top \/ nested
-       THEN LET g == GetData(ArgPath(v), d, FALSE) IN IF g.status = "ok" THEN g.v ELSE V("unconstrained", 0, <<>>)
+       THEN LET g == GetData(ArgPath(v), d, FALSE) IN
+            IF g.status = "ok" THEN g.v
+            ELSE IF g.status = "raised:ValueError" THEN V("argraises", 0, <<>>)     \* .single() with several matches
+            ELSE V("unconstrained", 0, <<>>)
        ELSE v
   ELSE IF v.k \in {"list", "tuple"} THEN V(v.k, 0, [i \in 1..Len(v.xs) |-> SubstVal(v.xs[i], d, nested, FALSE)])
   ELSE IF v.k = "map" THEN MapV([i \in 1..Len(v.xs) |-> <<v.xs[i][1], SubstVal(v.xs[i][2], d, nested, FALSE)>>])
@@ -33,6 +36,15 @@ RECURSIVE HasUnc(_)
 HasUnc(v) == \/ v.k = "unconstrained"
              \/ (v.k \in {"list", "tuple"} /\ \E i \in 1..Len(v.xs) : HasUnc(v.xs[i]))
              \/ (v.k = "map" /\ \E i \in 1..Len(v.xs) : HasUnc(v.xs[i][2]))
+\* an argument whose resolution raises (ValueError of .single()): the callable is never reached, the exception is a
+\* callable error of that leaf - the item fails it, nothing propagates
+RECURSIVE HasArgRaise(_)
+HasArgRaise(v) == \/ v.k = "argraises"
+                  \/ (v.k \in {"list", "tuple"} /\ \E i \in 1..Len(v.xs) : HasArgRaise(v.xs[i]))
+                  \/ (v.k = "map" /\ \E i \in 1..Len(v.xs) : HasArgRaise(v.xs[i][2]))
+LeafArgRaises(c) == (\E i \in 1..Len(c.args) : HasArgRaise(c.args[i])) \/ (\E i \in 1..Len(c.kw) : HasArgRaise(c.kw[i].v))
+\* a leaf of the same class that no item satisfies and that never aborts: `x < None`
+FailingLeaf(c) == [c EXCEPT !.fn = "less_than", !.args = <<>>, !.kw = KwValue(None)]
 RECURSIVE HasPathArgV(_)
 HasPathArgV(v) == \/ IsPathArg(v)
                   \/ (v.k \in {"list", "tuple"} /\ \E i \in 1..Len(v.xs) : HasPathArgV(v.xs[i]))
@@ -41,8 +53,10 @@ HasPathArgV(v) == \/ IsPathArg(v)
 RECURSIVE SubstTree(_, _, _)
 SubstTree(c, d, nested) ==
   CASE c.t = "null" -> c
-    [] c.t = "leaf" -> [c EXCEPT !.args = [i \in 1..Len(c.args) |-> SubstVal(c.args[i], d, nested, TRUE)],
-                                 !.kw = [i \in 1..Len(c.kw) |-> Kw(c.kw[i].name, c.kw[i].nc, SubstVal(c.kw[i].v, d, nested, TRUE))]]
+    [] c.t = "leaf" -> LET s == [c EXCEPT !.args = [i \in 1..Len(c.args) |-> SubstVal(c.args[i], d, nested, TRUE)],
+                                          !.kw = [i \in 1..Len(c.kw) |-> Kw(c.kw[i].name, c.kw[i].nc, SubstVal(c.kw[i].v, d, nested, TRUE))]]
+                       IN IF LeafArgRaises(s) /\ ~((\E i \in 1..Len(s.args) : HasUnc(s.args[i])) \/ (\E i \in 1..Len(s.kw) : HasUnc(s.kw[i].v)))
+                          THEN FailingLeaf(c) ELSE s
     [] OTHER -> Bin(c.t, SubstTree(c.l, d, nested), SubstTree(c.r, d, nested))
 RECURSIVE TreeUnc(_)
 TreeUnc(c) == CASE c.t = "null" -> FALSE
